@@ -151,14 +151,16 @@ def checkEscaped (rem : Bytes) : Option Nat :=
     else some 2
   | _ => none
 
-/-- the 25 bytes at which `raw_string` stops:
-space `,` `.` `:` `{` `}` `[` `]` `(` `)` `?` `@` `$` `|` `<` `>` `!` `=` `+` `-` `*` `/` `%` `"` `'` -/
+/-- the 29 bytes at which `raw_string` stops (after the fix "tabs, newlines and `&` end an
+unquoted name"): space, tab, LF, CR, `&`,
+`,` `.` `:` `{` `}` `[` `]` `(` `)` `?` `@` `$` `|` `<` `>` `!` `=` `+` `-` `*` `/` `%` `"` `'` -/
 def rawDelims : List UInt8 :=
-  [32, 44, 46, 58, 123, 125, 91, 93, 40, 41, 63, 64, 36, 124, 60, 62, 33, 61, 43, 45, 42, 47, 37, 34, 39]
+  [32, 9, 10, 13, 38, 44, 46, 58, 123, 125, 91, 93, 40, 41, 63, 64, 36, 124, 60, 62, 33, 61, 43, 45,
+   42, 47, 37, 34, 39]
 
 def isRawDelim (b : UInt8) : Bool := rawDelims.contains b
 
-/-- the scanning loop shared by `raw_string` (`stop` = one of the 25 delimiters) and `string`
+/-- the scanning loop shared by `raw_string` (`stop` = one of the 29 delimiters) and `string`
 (`stop` = `"`); state: `rem = input[i..]`, `i`, `escapes`.  A backslash is tested first, as in
 the Rust `match`.  Returns the final `(i, escapes)`, `.err` for the early `return Err`. -/
 def scan (stop : UInt8 → Bool) : Nat → Bytes → Nat → Nat → Res (Nat × Nat)
@@ -250,14 +252,24 @@ def dotField : Parser Bytes :=
 def objectField : Parser Bytes :=
   delimited (terminated (char 91) ws) string (preceded ws (char 93))
 
-/-- `i32::saturating_neg` -/
-def saturatingNeg (v : Int) : Int := if v = -2147483648 then 2147483647 else -v
+/-- `i64::saturating_neg` -/
+def saturatingNeg64 (v : Int) : Int :=
+  if v = -9223372036854775808 then 9223372036854775807 else -v
 
-/-- `index` -/
+/-- `.clamp(i32::MIN as i64, i32::MAX as i64) as i32` (`clamp` asserts `min <= max`, which
+holds for these constants; after clamping the `as i32` cast is exact) -/
+def clampI32 (v : Int) : Int :=
+  if v < -2147483648 then -2147483648 else if v > 2147483647 then 2147483647 else v
+
+/-- the closure of the `last - n` alternative:
+`|v| Index::LastIndex(v.saturating_neg().clamp(i32::MIN as i64, i32::MAX as i64) as i32)` -/
+def lastMinus (v : Int) : Index := Index.last (clampI32 (saturatingNeg64 v))
+
+/-- `index` (after the fix "`last - n` accepts the offset that LastIndex(i32::MIN) prints as":
+the offset of the second alternative is read with nom's `i64`) -/
 def index : Parser Index :=
   alt (map i32 Index.index)
-    (alt (map (preceded (tuple4 (tagNoCase kwLast) ws (char 45) ws) i32)
-            (fun v => Index.last (saturatingNeg v)))
+    (alt (map (preceded (tuple4 (tagNoCase kwLast) ws (char 45) ws) i64) lastMinus)
       (alt (map (preceded (tuple4 (tagNoCase kwLast) ws (char 43) ws) i32) Index.last)
         (map (tagNoCase kwLast) (fun _ => Index.last 0))))
 
@@ -353,16 +365,18 @@ def existsFn (exprOr : Bool → Parser Expr) : Parser (List Path) :=
     (preceded ws
       (delimited (terminated (char 40) ws) (existsPaths exprOr) (preceded ws (char 41))))
 
-/-- `expr_atom` -/
+/-- `expr_atom` (order after the fix "a negative number literal can be the left operand of a
+JSONPath comparison"): binary arithmetic, comparison, unary sign, parenthesised `expr_or`,
+`filter_func`. -/
 def exprAtom (exprOr : Bool → Parser Expr) (rootPredicate : Bool) : Parser Expr :=
   alt (map (tuple3 (delimited ws (innerExpr rootPredicate) ws) binaryArithOp
               (delimited ws (innerExpr rootPredicate) ws))
         (fun t => Expr.arithBinary t.2.1 t.1 t.2.2))
-    (alt (map (pair unaryArithOp (delimited ws (innerExpr rootPredicate) ws))
-            (fun t => Expr.arithUnary t.1 t.2))
-      (alt (map (tuple3 (delimited ws (innerExpr rootPredicate) ws) op
-                  (delimited ws (innerExpr rootPredicate) ws))
-              (fun t => Expr.binaryOp t.2.1 t.1 t.2.2))
+    (alt (map (tuple3 (delimited ws (innerExpr rootPredicate) ws) op
+                (delimited ws (innerExpr rootPredicate) ws))
+            (fun t => Expr.binaryOp t.2.1 t.1 t.2.2))
+      (alt (map (pair unaryArithOp (delimited ws (innerExpr rootPredicate) ws))
+              (fun t => Expr.arithUnary t.1 t.2))
         (alt (delimited (terminated (char 40) ws) (exprOr rootPredicate) (preceded ws (char 41)))
           (map (existsFn exprOr) Expr.existsFn))))
 
